@@ -30,7 +30,7 @@ class Spec:
             else:
                 self.m = {p: v for p, v in self.m.items() if a <= p[0] <= c and b <= p[1] <= d}
             self.rect = (a, b, c, d)
-        elif k == "empty":
+        elif k in ("empty", "default"):
             self.rect, self.m = None, {}
         elif k == "sparse":
             cells = op[1]
@@ -119,7 +119,7 @@ def gen_history(rng, ctx=None):
                 b, d = min(b, d), max(b, d)
             op = (kind, a, b, c, d)
         elif kind == "empty":
-            op = ("empty",)
+            op = (rng.choice(["empty", "default"]),)
         elif kind == "sparse":
             cells = [coord() + (rng.randrange(0, 10),) for _ in range(rng.randrange(0, 8))]
             if rng.random() < 0.5:     # row order is no longer a precondition: half stay shuffled
@@ -207,8 +207,8 @@ def run_corpus(ctx):
             if f[0] == "sparse":
                 cells = [tuple(int(x) for x in t.split(":")) for t in f[1].split(",")] if len(f) > 1 and f[1] else []
                 ops.append(("sparse", cells))
-            elif f[0] == "empty":
-                ops.append(("empty",))
+            elif f[0] in ("empty", "default"):
+                ops.append((f[0],))
             else:
                 ops.append((f[0],) + tuple(int(x) for x in f[1:]))
         classify(ctx, "k%d" % k, ops, impl.get("k%d" % k), model.get("k%d" % k))
